@@ -71,11 +71,13 @@ CLAIMED = {
         "Coq invariant proof (Hoare logic over the VM monad) + history-based differential and relational (fresh interpreter) check"),
     "C05": entry(
         "the listed text of line n, entered again, is line n again (all n <= 65529, all token lists); the decimal rendering of a number reads back "
-        "as the number; a string literal's payload is copied character for character (Props/C05.v).",
+        "as the number; a string literal's payload is copied character for character; a line that is a remark (' text, or REM followed by a character that cannot "
+        "continue a word) lists as itself with the trailing blanks removed, whatever code points the text holds, and that listing is a fixed point of entering and "
+        "listing again (Props/C05.v, Proofs/RemarkText.v).",
         "all strings over the lexical alphabet up to the tier's length, token-spelling pairs, constants glued to words, soup and program lines: "
         "relist twice (fixed point), same line number, same AST for original and listed text or both rejected, payloads preserved; SAVE/LOAD "
         "through Listing::load_str.",
-        "PARTIAL: the fixed-point and same-meaning halves (lex(print ts) = ts) are NOT proved; they are decided by the monitor on the crate. Two known "
+        "PARTIAL: the fixed-point and same-meaning halves (lex(print ts) = ts) are proved for remark lines only; for all other lines they are decided by the monitor on the crate. Two known "
         "findings are listed (text glued to REM; relational-operator soup behind ignored arguments).",
         "Coq theorems on the line-number prefix + exhaustive short-string relational check on the implementation"),
     "C06": entry(
@@ -195,7 +197,8 @@ CLAIMED = {
         "That DELETE refuses the bare form at run time and how numbers above 65529 are rejected by the scanner are differential only.",
         "Coq refinement to an ordered map + reachable-state invariant + history-based differential check with a reference map"),
     "C16": entry(
-        "? and ' scan to the PRINT and REM tokens; the operator and GO TO / GO SUB merges hold for any amount of blank space; the whole scanner -- line-number "
+        "? and ' scan to the PRINT and REM tokens; the operator and GO TO / GO SUB merges hold for any amount of blank space, and for every pair of operator characters "
+        "the merge with blanks between them is the merge without (one table, not two: the defect fixed by 638b3f3); the whole scanner -- line-number "
         "prefix, numbers with their exponent letters, & literals, words, punctuation, post passes -- returns the same line number and tokens for any two "
         "texts that differ only in letter case, provided no string literal or remark is among the tokens (Props/C16.v, Proofs/CaseFold.v, CaseLex.v).",
         "every line of generated programs rendered in random spellings (case, ?, ', GO TO, GO SUB, dropped LET, =< =>, blanks inside relational operators, "
@@ -223,7 +226,9 @@ CLAIMED = {
         "in every state reachable through the public API the value stack holds at most 65535 entries and its length field is exact (65536 only at the moment "
         "a push reports OUT OF MEMORY); the variable pool never exceeds 65536 entries, storing 0 or \"\" frees the slot; the code and DATA pools refuse the "
         "65536th entry; SWAP leaves exactly two values; for compiled programs of LET, PRINT, GOTO, ON..GOTO and END every completed statement leaves the value "
-        "stack exactly as long as it found it (from the C01 simulation) (Props/C18.v, Proofs/StackBound.v, Flow3.v).",
+        "stack exactly as long as it found it (from the C01 simulation); every built-in call that completes replaces exactly the entries it owns -- as many as the "
+        "arity table the code generator consults says, the count literal included when the arity is a range -- by one result and touches nothing beneath, for all "
+        "33 names (Props/C18.v, Proofs/StackBound.v, Flow3.v, CallWidth.v).",
         "every statement kind 70000 times in a loop (crate) and 2500 times (model and crate); GOSUB / FN recursion, abandoned frames, 65537 variables / "
         "DATA constants / instructions must end in OUT OF MEMORY with the session usable; zeroing at the pool limit (also through converting assignments) "
         "must free slots.",
